@@ -18,7 +18,7 @@ for d in sorted(glob.glob(os.path.join(VERIF, 'seeded', '*'))):
         meta = json.load(open(os.path.join(d, 'meta.json')))
     except Exception:
         continue
-    if os.path.exists(os.path.join(d, 'MISSED')) or os.path.exists(os.path.join(d, 'ALARMS')):
+    if os.path.exists(os.path.join(d, 'MISSED')) or os.path.exists(os.path.join(d, 'ALARMS')) or os.path.exists(os.path.join(d, 'SUPERSEDED')):
         continue  # recorded as not detected / as a residual false alarm (see DESIGN.md): kept for reference, not a canary
     if meta.get('kind') == 'harmless':
         # a behaviour-preserving refactoring written by a sub-agent: no alarm allowed
